@@ -224,6 +224,13 @@ fn body(p: &Program, f: &Func) -> String {
 
 /// Render the program; `keep` selects which pipeline *definitions* are written (all functions stay)
 pub fn render(p: &Program, keep: &dyn Fn(usize) -> bool) -> String {
+    render_with(p, keep, &|_| String::new())
+}
+
+/// `render` with extra statements (returned by `extra` for each function name) placed at the start of
+/// every function body; with an `extra` that returns nothing the output is byte-identical to `render`
+pub fn render_with(p: &Program, keep: &dyn Fn(usize) -> bool, extra: &dyn Fn(&str) -> String) -> String {
+    let body = |p: &Program, f: &Func| -> String { format!("{}{}", extra(&f.name), body(p, f)) };
     let mut s = String::new();
     s.push_str("struct CbS { float4 v; };\n");
     for k in 0..p.nstatics {
@@ -317,4 +324,175 @@ pub fn describe_pipes(p: &Program, keep: &dyn Fn(usize) -> bool) -> String {
         parts.push(format!("{}:{}", pipe.name, st.join(",")));
     }
     parts.join(";")
+}
+
+// ------------------------------------------------------------------------------------------------
+// Layout-rich rendering (C14): the same programs spread over an entry file and included files, with
+// object-like / function-like / concatenating macros, conditional blocks, multi-line constructs and
+// expression statements that exercise `<`, `>`, `<<`, `>>`, template arguments and literals.
+// ------------------------------------------------------------------------------------------------
+
+pub struct LayoutOpts {
+    /// put helpers and macros into `inc.rssl` (which may include `inc2.rssl`)
+    pub include: bool,
+    pub macros: bool,
+    pub conditionals: bool,
+}
+
+fn gen_int_expr(rng: &mut Rng, depth: u32, locals: &[String], o: &LayoutOpts) -> String {
+    if depth == 0 || rng.chance(1, 4) {
+        return match rng.below(if o.macros { 5 } else { 3 }) {
+            0 if !locals.is_empty() => rng.pick(locals).clone(),
+            0 | 1 => format!("{}", rng.below(10)),
+            2 => format!("0x{:x}", rng.below(64)),
+            3 => "K_ONE".to_string(),
+            _ => "CAT(K_, TWO)".to_string(),
+        };
+    }
+    let a = gen_int_expr(rng, depth - 1, locals, o);
+    let b = gen_int_expr(rng, depth - 1, locals, o);
+    let tight = rng.chance(1, 3);
+    let bin = |op: &str| if tight { format!("({}{}{})", a, op, b) } else { format!("({} {} {})", a, op, b) };
+    match rng.below(if o.macros { 12 } else { 9 }) {
+        0 => bin("+"),
+        1 => bin("-"),
+        2 => bin("*"),
+        3 => bin(*rng.pick(&["&", "|", "^"])),
+        4 => {
+            let sh = rng.below(4);
+            let op = *rng.pick(&["<<", ">>"]);
+            if tight { format!("({}{}{})", a, op, sh) } else { format!("({} {} {})", a, op, sh) }
+        }
+        5 | 6 => {
+            let op = *rng.pick(&["<", ">", "<=", ">=", "==", "!="]);
+            let c = gen_int_expr(rng, depth - 1, locals, o);
+            if tight { format!("({}{}{}?{}:{})", a, op, b, c, a) } else { format!("({} {} {} ? {} : {})", a, op, b, c, a) }
+        }
+        7 => format!("(int)((float){} * 1.5f)", a),
+        8 => format!("(-{})", a),
+        9 => {
+            if rng.chance(1, 3) { format!("ADD(\n        {},\n        {})", a, b) } else { format!("ADD({}, {})", a, b) }
+        }
+        10 => format!("MAX({},{})", a, b),
+        _ => {
+            if o.include { format!("inc_helper({})", a) } else { format!("SQR({})", a) }
+        }
+    }
+}
+
+/// a `{ ... }` block of local declarations and assignments (no effect on the rest of the function)
+pub fn gen_stmt_block(rng: &mut Rng, o: &LayoutOpts, tag: &str) -> String {
+    let mut s = String::from("    {\n");
+    let mut locals: Vec<String> = Vec::new();
+    let n = rng.range(1, 4);
+    for i in 0..n {
+        let name = format!("t{}_{}", tag, i);
+        match rng.below(8) {
+            0 => {
+                s.push_str(&format!("        float {} = {} * (float){};\n", name,
+                    rng.pick(&["1.5", "0.25f", "2.", "1e-2", "3.0e+1f", ".5"]), gen_int_expr(rng, 1, &locals, o)));
+                continue;
+            }
+            1 => {
+                s.push_str(&format!("        vector<float, 2> {} = float2({}, 0.5);\n", name, rng.below(5)));
+                continue;
+            }
+            2 => {
+                s.push_str(&format!("        bool {} = {} < {} && {} >= {};\n", name,
+                    gen_int_expr(rng, 1, &locals, o), gen_int_expr(rng, 1, &locals, o), rng.below(5), rng.below(5)));
+                continue;
+            }
+            3 => {
+                s.push_str(&format!("        float4 {} = float4({}, {}, 0, 1).{};\n", name, rng.below(5), rng.below(5),
+                    rng.pick(&["xyzw", "wzyx", "xxyy"])));
+                continue;
+            }
+            _ => {}
+        }
+        let d = rng.range(1, 3) as u32;
+        let e = gen_int_expr(rng, d, &locals, o);
+        s.push_str(&format!("        int {} = {};\n", name, e));
+        if rng.chance(1, 3) {
+            let e2 = gen_int_expr(rng, 1, &locals, o);
+            let op = *rng.pick(&["+=", "-=", "*=", "<<=", ">>=", "&=", "|="]);
+            let e2 = if op == "<<=" || op == ">>=" { format!("{}", rng.below(4)) } else { e2 };
+            s.push_str(&format!("        {} {} {};\n", name, op, e2));
+        }
+        locals.push(name);
+    }
+    s.push_str("    }\n");
+    s
+}
+
+fn macro_block(rng: &mut Rng) -> String {
+    let mut s = String::new();
+    s.push_str("#define K_ONE 1\n");
+    s.push_str(if rng.chance(1, 2) { "#define K_TWO (K_ONE + K_ONE)\n" } else { "#define K_TWO 2 // two\n" });
+    s.push_str(if rng.chance(1, 2) { "#define ADD(a, b) ((a) + (b))\n" } else { "#define ADD( a , b ) \\\n    ((a) + (b))\n" });
+    s.push_str("#define MAX(a,b) ((a) > (b) ? (a) : (b))\n");
+    s.push_str("#define SQR(x) ((x) * (x)) /* square */\n");
+    s.push_str(if rng.chance(1, 2) { "#define CAT(a, b) a##b\n" } else { "#define CAT(a, b) a ## b\n" });
+    s
+}
+
+/// Render `p` as a set of in-memory files; the first file is the entry file `main.rssl`
+pub fn render_layout_files(p: &Program, rng: &mut Rng, o: &LayoutOpts) -> Vec<(String, String)> {
+    let mut files: Vec<(String, String)> = Vec::new();
+    let mut main = String::new();
+    if rng.chance(1, 3) {
+        main.push_str("// entry file\n\n");
+    }
+    let nested = o.include && rng.chance(1, 3);
+    if o.include {
+        main.push_str(if rng.chance(1, 4) { "#  include \"inc.rssl\"\n" } else { "#include \"inc.rssl\"\n" });
+        // a second inclusion is cut off by `#pragma once`
+        if rng.chance(1, 4) {
+            main.push_str("#include \"inc.rssl\"\n");
+        }
+    }
+    let mut inc = String::new();
+    if o.include {
+        inc.push_str("#pragma once\n");
+        if nested {
+            inc.push_str("#include \"inc2.rssl\"\n");
+        }
+    }
+    let macros = if o.macros {
+        macro_block(rng)
+    } else {
+        // the expression generator needs these names even without the macro forms
+        String::from("static const int K_ONE = 1;\n")
+    };
+    let helper = "int inc_helper(int x) {\n    int y = x + K_ONE;\n    return y * 2;\n}\n";
+    if o.include {
+        if nested {
+            files.push(("inc2.rssl".to_string(), format!("#pragma once\n{}", macros)));
+        } else {
+            inc.push_str(&macros);
+        }
+        inc.push_str("struct IncData { float4 a; uint b; };\n");
+        inc.push_str(helper);
+    } else {
+        main.push_str(&macros);
+    }
+    if o.conditionals {
+        match rng.below(3) {
+            0 => main.push_str("#if K_ONE > 0 && defined(K_ONE)\nstatic const int c_sel = 1;\n#else\nstatic const int c_sel = 2 @ bad tokens here;\n#endif\n"),
+            1 => main.push_str("#ifdef NOT_DEFINED_ANYWHERE\nthis is skipped ;;; ((\n#elif 1\nstatic const int c_sel = 3;\n#endif\n"),
+            _ => main.push_str("#ifndef K_ONE_MISSING\nstatic const int c_sel = 4;\n#endif /* K_ONE_MISSING */\n"),
+        }
+    }
+    let mut block_rng = rng.fork();
+    let opts = LayoutOpts { include: o.include, macros: o.macros, conditionals: o.conditionals };
+    let blocks = std::cell::RefCell::new(&mut block_rng);
+    let text = render_with(p, &|_| true, &|fname: &str| {
+        let mut r = blocks.borrow_mut();
+        if r.chance(2, 3) { gen_stmt_block(&mut r, &opts, &fname.replace(|c: char| !c.is_ascii_alphanumeric(), "")) } else { String::new() }
+    });
+    main.push_str(&text);
+    files.insert(0, ("main.rssl".to_string(), main));
+    if o.include {
+        files.insert(1, ("inc.rssl".to_string(), inc));
+    }
+    files
 }
